@@ -68,6 +68,30 @@ def family(tier):
                             idx += 1
 
 
+def view_family():
+    """LPs written ONLY with whole-view reductions (sum, c@view) over views of one vector whose generated names and
+    sizes coincide although they select different elements (u[::2] / u[::-2], u[0:4:2] / u[0:4:3], u[:] / u[::-1])."""
+    U = ("vvar", "u", 4)
+    ev, od = ("slice", U, None, None, 2), ("slice", U, None, None, -2)          # {0,2} / {3,1}
+    a2, a3 = ("slice", U, 0, 4, 2), ("slice", U, 0, 4, 3)                       # {0,2} / {0,3}
+    full, rev = ("slice", U, None, None, None), ("slice", U, None, None, -1)
+    w2, w2b, w4 = ("arr", (1.0, 2.0)), ("arr", (3.0, -1.0)), ("arr", (1.0, -2.0, 3.0, 0.5))
+    models = [
+        ("sum-even/sum-odd", ("sum", ev), (("cmp", "<=", ("sum", od), c(3)), ("cmp", ">=", ("sum", ev), c(1)))),
+        ("sum-odd/sum-even", ("sum", od), (("cmp", ">=", ("sum", ev), c(1)), ("cmp", ">=", ("sum", od), c(0.5)))),
+        ("w@a2/w@a3", ("mm", w2, a2), (("cmp", ">=", ("mm", w2b, a3), c(1)), ("cmp", "<=", ("mm", w2, a3), c(4)))),
+        ("w@a3/w@a2", ("mm", w2b, a3), (("cmp", "<=", ("mm", w2, a2), c(2)),)),
+        ("w@full/w@rev", ("mm", w4, full), (("cmp", ">=", ("mm", w4, rev), c(1)), ("cmp", "<=", ("sum", full), c(5)))),
+        ("sum-even/w@odd-eq", ("sum", ev), (("cmp", "==", ("mm", w2, od), c(2)),)),
+    ]
+    idx = 0
+    for lab, obj, cons in models:
+        for sense in ("min", "max"):
+            for bm in ((("lb", 0), ("ub", 3)), (("lb", -1), ("ub", 2))):
+                yield 10_000_000 + idx, ("views", lab, sense), PR.prob(sense, obj, cons, (("u", bm),)), METHODS[idx % len(METHODS)]
+                idx += 1
+
+
 def reference_lp(pr):
     """Matrix form assembled independently from the exact polynomials of the recipes."""
     names = PR.problem_var_names(pr)
